@@ -24,6 +24,9 @@ deriving Repr
 def isAsym (kt : String) : Bool :=
   ["ed25519", "p256der", "p256", "p384", "p521", "x25519kw", "p256kw", "bbs", "secp256k1"].contains kt
 
+/-- key types for which `kmsdidkey` derives a key id from the did:key form (key agreement keys and Ed25519) -/
+def didKeyDerivable (kt : String) : Bool := ["ed25519", "x25519kw", "p256kw"].contains kt
+
 def importable (kt : String) : Bool := ["ed25519", "p256", "p256der", "p384"].contains kt
 
 /-- one call; `failAt` = index of the mutating storage call that fails (crash), if any. Returns (state, outcome) -/
@@ -33,13 +36,15 @@ def step (s : St) (op : String) (failAt : Option Nat) : St × String :=
   | ["create", kt] =>
     if failsAt 0 then (s, "err") else
     let k : K := ⟨s.next, isAsym kt, if isAsym kt then "1" else "-", false, true, false⟩
-    ({ keys := s.keys ++ [k], store := s.next :: s.store, next := s.next + 1 }, "ok:" ++ k.flag)
+    ({ keys := s.keys ++ [k], store := s.next :: s.store, next := s.next + 1 },
+      "ok:" ++ k.flag ++ (if didKeyDerivable kt then "d1" else ""))
   | ["createexp", kt] =>
     if failsAt 0 then (s, "err") else
     if !isAsym kt then ({ s with store := s.next :: s.store, next := s.next + 1 }, "err")   -- created, export refused
     else
       let k : K := ⟨s.next, true, "1", false, true, true⟩
-      ({ keys := s.keys ++ [k], store := s.next :: s.store, next := s.next + 1 }, "ok:1")
+      ({ keys := s.keys ++ [k], store := s.next :: s.store, next := s.next + 1 },
+        "ok:1" ++ (if didKeyDerivable kt then "d1" else ""))
   | ["import", kt, mode] =>
     if !importable kt then (s, "skip") else
     let dup := mode == "dupid" && !s.keys.isEmpty
@@ -115,11 +120,13 @@ def oracle06 (impl : String) : String × String :=
   match impl.splitOn " || " with
   | [opsS, tail] =>
     let outs := opsS.splitOn " "
-    let notThumb := outs.any fun o => o == "ok:0"
+    let notThumb := outs.any fun o => o == "ok:0" || o.startsWith "ok:0d"
+    let didKeyDiffers := outs.any fun o => o.endsWith "d0" || o.endsWith "d?" || o.endsWith "d-"
     let probes := ((tail.splitOn "reopen: ").getLast?.getD "").splitOn " " |>.filter (· != "")
     let lost := probes.any fun p => p.startsWith "live:fail"
     let changed := probes.any fun p => p.endsWith "/0"
-    if lost then ("KEY-LOST-AFTER-REOPEN", "")
+    if didKeyDiffers then ("ID-DERIVED-FROM-DID-KEY-IS-NOT-THE-KEY-ID", "")
+    else if lost then ("KEY-LOST-AFTER-REOPEN", "")
     else if changed then ("KEY-MATERIAL-CHANGED-AFTER-REOPEN", "")
     else if notThumb then ("=", "id-not-thumbprint")     -- judged against the input by the caller
     else ("=", "")
@@ -135,7 +142,7 @@ def judge06 (input impl : String) : String × String × String :=
     match parse input with
     | some (ops, _) =>
       let outs := ((impl.splitOn " || ").headD "").splitOn " "
-      let bad := (ops.zip outs).filter fun (op, o) => o == "ok:0" &&
+      let bad := (ops.zip outs).filter fun (op, o) => (o == "ok:0" || o.startsWith "ok:0d") &&
         !(op.startsWith "import" && (op.endsWith " id" || op.endsWith " dupid"))
       let badCreate := bad.any fun (op, _) => op.startsWith "create"
       if badCreate then (modelCol, "CREATED-KEY-ID-IS-NOT-THE-THUMBPRINT", "")
